@@ -25,6 +25,7 @@ CHECKS["C06"] = dict(
 )
 
 CHECKS["C12"] = dict(
+    deadline_thorough=2400, deadline_quick=600,   # 14-operation alphabet: the thorough tier runs 2 * 10^8 histories
     level="model_checking", engine="E-HIST",
     technique="explicit-state model checking of the implementation: every API history up to a depth bound executed on the real exporter in lockstep with a reference state machine",
     level_text="All operation histories over an 11-operation alphabet (storable/unstorable records, repeated address-event keys, explicit block writes, rotation, parameter switches incl. an out-of-range one) up to the depth bound are executed on the real CdnsExporter for 24 configurations; after every step return-value sign and all counters are compared with the reference model, at the end every output is parsed independently and compared block by block (sizes, order, conservation).",
